@@ -104,10 +104,11 @@ def classify(r):
     return {"k": "other:" + name}
 
 
-def execute(e):
+def execute(e, alias=False):
+    """alias: both operands are the very same object (x op x) - the table is by class and length, not by identity"""
     op, L, R = e["op"], e["l"], e["r"]
     a = make(L["c"], L["n"], 1, variant=L.get("v", "generic"))
-    b = make(R["c"], R["n"], 11, left_kind=L["c"], variant=R.get("v", "generic"))
+    b = a if alias else make(R["c"], R["n"], 11, left_kind=L["c"], variant=R.get("v", "generic"))
     if a is None or b is None:
         return None
     try:
@@ -117,7 +118,7 @@ def execute(e):
     return classify(r)
 
 
-def judge_cell(j, e, got):
+def judge_cell(j, e, got, alias=False):
     op, L, R, out = e["op"], e["l"], e["r"], e["out"]
     doc = out["doc"]
     cid = (op, L["c"], R["c"])
@@ -127,7 +128,9 @@ def judge_cell(j, e, got):
     if L.get("v", "generic") != "generic" or R.get("v", "generic") != "generic":
         feat += ";%s" % "+".join(x for x in (("left-" + L["v"]) if L.get("v", "generic") != "generic" else "",
                                              ("right-" + R["v"]) if R.get("v", "generic") != "generic" else "") if x)
-    detail = {"op": op, "l": L, "r": R, "documented": doc, "got": got}
+    if alias:
+        feat += ";same-object"
+    detail = {"op": op, "l": L, "r": R, "documented": doc, "got": got, "alias": alias}
     if doc["k"] == "unspec":
         # even where the documentation decides nothing else: an arithmetic operator never returns None
         if got["k"] == "none" and op in ("*", "/", "+", "-", "**", "@"):
@@ -187,6 +190,14 @@ def run(tier):
             continue
         n_exec += 1
         judge_cell(j, e, got)
+        if e["l"]["c"] == e["r"]["c"] and e["l"]["n"] == e["r"]["n"] and e["l"].get("v") == e["r"].get("v"):
+            try:
+                got2 = execute(e, alias=True)
+            except Exception:  # noqa: BLE001
+                got2 = None
+            if got2 is not None:
+                n_exec += 1
+                judge_cell(j, e, got2, alias=True)
         if e["out"]["doc"]["k"] == "obj" and len(j.samples) < 3:
             j.sample({"cell": e, "got": got})
     # Direction B: operator events of the repository's own tests judged by TLC against Doc
